@@ -83,7 +83,14 @@ remapped (C,O).  Seeded C13-m3 (clone_graph passes unmapped declared outputs thr
 views only listed outputs produced inside the view.  Now views list foreign outputs / extra foreign inputs at
 random positions, nested graphs list foreign (enclosing-scope intermediate) outputs, the traversal records "out"
 events, the oracle requires rejection for any declared output without a clone (corpus view_foreign_output) and
-compares the original's snapshot after a rejected as well as an accepted clone -> caught (C,O).  Applying the proposed fix makes the
+compares the original's snapshot after a rejected as well as an accepted clone -> caught (C,O).
+Round 3: r3m2 (functionalize skips the clone for passes that declare themselves functional) was MISSED because
+the functionalize oracle only wrapped a plain in-place pass; it now runs 5 shapes (in-place; Sequential /
+PassManager / nested Sequential of an honest functional pass that returns a new Model on the SAME graph followed
+by an in-place pass; in-place then functional) and also requires the result not to share the input's graph
+-> caught (O).  r3m3 (specs of values without a map entry dropped instead of kept) was MISSED because sharded
+CAPTURED inputs were too rare: nodes of nested graphs now shard a captured input with probability 0.6 when a
+device configuration exists (corpus sharded_capture) -> caught (C,O).  Applying the proposed fix makes the
 correspondence break and the known finding stale, as it must.
 """
 
@@ -457,7 +464,18 @@ class Gen:
             for o in n.outputs:
                 self.set_output_props(o)
             self.decorate(n)
-            if self.cfgs and rng.random() < 0.35:
+            captured = [v for v in n.inputs if v is not None and any(v is w for w in outer)]
+            if self.cfgs and captured and rng.random() < 0.6:
+                # shard an input CAPTURED from an enclosing graph (its spec has no entry in the value map when the
+                # subgraph / view is cloned with allow_outer_scope_values=True and must be kept as it is)
+                v = rng.choice(captured)
+                if v.shape is None or len(v.shape) == 0:
+                    v.shape = ir.Shape([4, "N"])
+                try:
+                    n.shard(v, configuration=rng.choice(self.cfgs), axis=0, num_shards=2, device_indices=(0, 1))
+                except ValueError:
+                    pass
+            elif self.cfgs and rng.random() < 0.35:
                 cands = [v for v in list(n.inputs) + list(n.outputs) if v is not None]
                 cfg = rng.choice(self.cfgs)
                 if cands and rng.random() < 0.8:
@@ -515,7 +533,7 @@ class Gen:
 
     def mk_model(self):
         ir, rng = self.ir, self.rng
-        use_dev = rng.random() < 0.4
+        use_dev = rng.random() < 0.5
         model = ir.Model(ir.Graph([], [], nodes=[], name="placeholder"), ir_version=11 if use_dev else 10,
                          producer_name=rng.choice([None, "verif"]), doc_string=rng.choice([None, "mdoc"]))
         if use_dev:
@@ -1006,7 +1024,8 @@ def run_case(spec: dict, nops: int):
     n0 = R.next
     root = R.id(sc["target"])
     sorted_py = is_sorted(ir, cloned_graph_of(sc))
-    info = {"spec": spec, "cells_before": len(h0), "sorted": sorted_py}
+    info = {"spec": spec, "cells_before": len(h0), "sorted": sorted_py,
+            "conflict": ownership_conflict(ir, cloned_graph_of(sc))}
     try:
         pproj = proto_proj(R, ir, sc["target"])
     except Exception:  # noqa: BLE001   (not serializable: the proto tie is skipped for this case, [0] = no proto)
@@ -1139,6 +1158,21 @@ def builtin_scenario(name: str):
         view = ir.GraphView([n1.outputs[0]], [n3.outputs[0]], nodes=[n2], name="view")
         return {"model": model, "gen": gen, "target": view, "univ": [model, view], "kind": 1, "allow": False,
                 "deep": False, "clone": lambda: view.clone()}
+    elif name == "sharded_capture":
+        # seeded change C13-r3m3: the sharding spec of a captured (outer-scope) input must survive the clone
+        model = ir.Model(ir.Graph([], [], nodes=[], name="placeholder"), ir_version=11)
+        cfg = model.add_device_configuration("c0", device_names=("d0", "d1"))
+        x = ir.Value(name="x", type=ir.TensorType(F), shape=ir.Shape([4, 2]))
+        c = val("c")
+        inner = ir.Node("", "Relu", [x], name="inner")
+        inner.outputs[0].name = "io"
+        inner.shard(x, configuration=cfg, axis=0, num_shards=2, device_indices=(0, 1))
+        sub = ir.Graph([], inner.outputs, nodes=[inner], name="then", opset_imports={"": 20})
+        n = ir.Node("", "If", [c], [ir.AttrGraph("then_branch", sub)], name="if")
+        n.outputs[0].name = "o"
+        model.graph = ir.Graph([x, c], n.outputs, nodes=[n], name="g", opset_imports={"": 20})
+        return {"model": model, "gen": gen, "target": sub, "univ": [model], "kind": 0, "allow": True, "deep": False,
+                "clone": lambda: sub.clone(allow_outer_scope_values=True)}
     elif name == "subgraph_capture_rejected":
         sc = builtin_scenario("subgraph_capture")
         sub = sc["target"]
@@ -1630,34 +1664,60 @@ def oracle_sym(spec: dict, rename: bool = True) -> list[dict]:
     return fails
 
 
+FUNCTIONAL_SHAPES = ["inplace", "seq(functional,inplace)", "manager(functional,inplace)", "seq(seq(functional),inplace)",
+                     "seq(inplace,functional)"]
+
+
 def oracle_functional(spec: dict, rename: bool = True) -> list[dict]:
-    """functionalize(p)(model) must not alter the input model, whatever p does with the model it is given."""
+    """functionalize(p)(model) must not alter the input model, whatever p is: a plain in-place pass, or a
+    composition (Sequential / PassManager) that starts with an honest functional pass - one that returns a NEW
+    Model object wrapping the SAME graph without touching its input - followed by an in-place pass."""
     import onnx_ir as ir
     from onnx_ir.passes import _pass_infra as pi
     fails = []
-    sc = scenario_of(dict(spec, kind=3))
-    model = sc["model"]
 
-    class EditAll(pi.InPlacePass):
-        def call(self, m):
-            edit_everything(ir, m, random.Random(3), sc["gen"].tensors, rename=rename)
-            return pi.PassResult(m, True)
-    serialize(ir, model)
-    base = snapshot(ir, model)
-    ser0 = serialize(ir, model)
-    try:
-        res = pi.functionalize(EditAll())(model)
-    except Exception as e:  # noqa: BLE001
-        if snapshot(ir, model) != base:
-            fails.append({"kind": "functional-pass", "what": f"a failing functional pass ({type(e).__name__}) changed its input"})
-        return fails
-    if res.model is model:
-        fails.append({"kind": "functional-pass", "what": "functionalize returned the input model object"})
-    after = snapshot(ir, model)
-    if after != base:
-        fails.append({"kind": "functional-pass", "what": "functional pass changed its input: " + first_diff(base, after)})
-    elif serialize(ir, model) != ser0:
-        fails.append({"kind": "functional-pass", "what": "functional pass changed the serialized input"})
+    for shape in FUNCTIONAL_SHAPES:
+        sc = scenario_of(dict(spec, kind=3))
+        model = sc["model"]
+        tensors = sc["gen"].tensors
+
+        class EditAll(pi.InPlacePass):
+            def call(self, m):
+                edit_everything(ir, m, random.Random(3), tensors, rename=rename)
+                return pi.PassResult(m, True)
+
+        class Stamp(pi.FunctionalPass):
+            def call(self, m):
+                new = ir.Model(m.graph, ir_version=m.ir_version, producer_name="stamped", producer_version="1",
+                               domain=m.domain, model_version=m.model_version, doc_string=m.doc_string,
+                               functions=list(m.functions.values()), metadata_props=dict(m.metadata_props),
+                               device_configurations=m.device_configurations)
+                return pi.PassResult(new, True)
+        p = {"inplace": lambda: EditAll(),
+             "seq(functional,inplace)": lambda: pi.Sequential(Stamp(), EditAll()),
+             "manager(functional,inplace)": lambda: pi.PassManager([Stamp(), EditAll()], steps=2, early_stop=False),
+             "seq(seq(functional),inplace)": lambda: pi.Sequential(pi.Sequential(Stamp()), EditAll()),
+             "seq(inplace,functional)": lambda: pi.Sequential(EditAll(), Stamp())}[shape]()
+        serialize(ir, model)
+        base = snapshot(ir, model)
+        ser0 = serialize(ir, model)
+        try:
+            res = pi.functionalize(p)(model)
+        except Exception as e:  # noqa: BLE001
+            if snapshot(ir, model) != base:
+                fails.append({"kind": "functional-pass", "shape": shape,
+                              "what": f"a failing functionalized pass [{shape}] ({type(e).__name__}) changed its input"})
+            continue
+        if res.model is model or res.model.graph is model.graph:
+            fails.append({"kind": "functional-pass", "shape": shape,
+                          "what": f"functionalize [{shape}] returned the input model / a model sharing the input's graph"})
+        after = snapshot(ir, model)
+        if after != base:
+            fails.append({"kind": "functional-pass", "shape": shape,
+                          "what": f"functionalized pass [{shape}] changed its input: " + first_diff(base, after)})
+        elif serialize(ir, model) != ser0:
+            fails.append({"kind": "functional-pass", "shape": shape,
+                          "what": f"functionalized pass [{shape}] changed the serialized input"})
     return fails
 
 
@@ -1724,11 +1784,18 @@ def load_corpus() -> list[dict]:
 
 def correspondence(ck, specs: list[dict], nops: int, tag: str):
     """-> (list of (spec, code) that disagree, infos)."""
-    terms, infos = [], []
+    terms, infos, kept_specs = [], [], []
     for sp in specs:
         t, info = run_case(sp, nops)
+        if info["conflict"] and info["outcome"] != "ok":
+            # a value listed by two graphs of the region (only possible through a GraphView): Graph() refuses it.
+            # Graph ownership (C01) is not part of this model; the oracle still checks the rejection is clean.
+            ck.hist("skipped", "ownership-conflict-rejected")
+            continue
         terms.append(t)
         infos.append(info)
+        kept_specs.append(sp)
+    specs = kept_specs
     chunk = 25
     files = [(f"{tag}_{k // chunk}", case_file(terms[k:k + chunk])) for k in range(0, len(terms), chunk)]
     results = ck.coq_eval_many(files, timeout=900)
@@ -1849,7 +1916,8 @@ def run(ck) -> None:
         ck.broken("correspondence:case-file", str(e))
     ck.count(len(infos))
     ck.coverage["traces_validated_against_impl"] = len(infos)
-    for sp, info in zip(specs, infos):
+    specs_c = [i["spec"] for i in infos]
+    for sp, info in zip(specs_c, infos):
         ck.hist("outcomes", info["outcome"])
         ck.hist("clone_kind", ["Graph.clone", "GraphView.clone", "Function.clone", "Model.clone"][sp.get("kind", 0)]
                 if "builtin" not in sp else "builtin")
@@ -1862,7 +1930,7 @@ def run(ck) -> None:
         if info["outcome"] == "ok" and info.get("cells_after", 0) - info["cells_before"] >= 10 and \
                 any(o["result"] == "ok" for o in info["ops"]):
             ck.nontriv(sp)
-    for sp, info in list(zip(specs, infos))[:4]:
+    for sp, info in list(zip(specs_c, infos))[:4]:
         ck.sample({"spec": sp, "outcome": info["outcome"], "cells_before": info["cells_before"],
                    "cells_after": info.get("cells_after"), "ops": info["ops"][:3]})
     for sp, code in bad[:6]:
